@@ -180,9 +180,10 @@ def _verify_excel(m, data, ctx, ref):
         a, b = name.split("->")
         pd = lk.get((a, b))
         for i in compare.sample_rows(nr):
-            if eamtab.near_boundary(ref, pd, i * dr):
+            x = i * m["grid"]["cutoff"] / float(nr - 1)        # spreadsheet rows sit at i*cutoff/(nr-1)
+            if eamtab.near_boundary(ref, pd, x):
                 continue
-            w = eamtab.ref_value(ref, pd, i * dr)
+            w = eamtab.ref_value(ref, pd, x)
             got = cols[name][i]
             if got is None or not compare.close(("e", 16), float(got), w):
                 v.append(("slot:excel", "column %s row %d: %r, declared %s->%s gives %r (declared=%s)\n%s" % (
